@@ -24,17 +24,17 @@ import (
 // ---------------------------------------------------------------- fake connection
 
 type fconn struct {
-	w        *World
-	id       int
-	in       chan packet.Generic
-	mu       sync.Mutex
-	closed   bool // broker side closed
-	peerGone bool
-	cl       chan struct{}
-	nsent    int
-	failAt   int // fail the failAt-th send from now (1-based); 0 = never
-	timeout  time.Duration
-	deadline time.Time
+	w         *World
+	id        int
+	in        chan packet.Generic
+	mu        sync.Mutex
+	closed    bool // broker side closed
+	peerGone  bool
+	cl        chan struct{}
+	nsent     int
+	failAt    int // fail the failAt-th send from now (1-based); 0 = never
+	timeout   time.Duration
+	deadline  time.Time
 	failClose bool // Close() reports an error (the connection is closed all the same)
 }
 
@@ -247,24 +247,25 @@ type ev struct {
 }
 
 type World struct {
-	hist       []ev
-	o          *out.W
-	prop       string
-	be         *broker.MemoryBackend
-	wb         *wrapBackend
-	conns      map[int]*fconn
-	clients    map[int]*broker.Client
-	peers      map[int]*peer
-	nconn      int
-	mu         sync.Mutex
-	log        []string
-	trace      []string
-	bpublishes map[int][]string
-	terminates map[int]int
-	window     int
-	queue      int
-	seq        int
-	stalled    map[int]chan struct{}
+	hist        []ev
+	o           *out.W
+	prop        string
+	be          *broker.MemoryBackend
+	wb          *wrapBackend
+	conns       map[int]*fconn
+	clients     map[int]*broker.Client
+	peers       map[int]*peer
+	nconn       int
+	mu          sync.Mutex
+	log         []string
+	trace       []string
+	bpublishes  map[int][]string
+	terminates  map[int]int
+	window      int
+	queue       int
+	seq         int
+	stalled     map[int]chan struct{}
+	mustSurvive map[int]bool
 }
 
 func newWorld(o *out.W, prop string, window, queue int, creds map[string]string) *World {
@@ -276,6 +277,7 @@ func newWorld(o *out.W, prop string, window, queue int, creds map[string]string)
 	w.be.Credentials = creds
 	w.wb = &wrapBackend{MemoryBackend: w.be, w: w, mode: "sync"}
 	w.stalled = map[int]chan struct{}{}
+	w.mustSurvive = map[int]bool{}
 	// a logger that can hold up a connection's goroutines (they all report through it)
 	w.be.Logger = func(_ broker.LogEvent, c *broker.Client, _ packet.Generic, _ *packet.Message, _ error) {
 		w.mu.Lock()
